@@ -22,6 +22,7 @@ Require Import Verif.Model.Base Verif.Model.Decision Verif.Model.DecisionRef Ver
 Require Import Verif.Model.Attrs Verif.Model.Encode Verif.Model.Writers Verif.Model.Deliver Verif.Model.Args.
 Require Import Verif.Model.Terminate Verif.Gen.PanicSites Verif.Gen.Tables.
 Require Import Verif.Proofs.ArgsP.
+Require Verif.Gen.Layout Verif.Model.LayoutRef Verif.Proofs.GenLayoutP.
 
 (* the three encoders end every record with a line feed (from the definition of Encode.encode;
    None = a coloured-mode message with markup, rendered by an HTML translator outside the model) *)
@@ -158,6 +159,25 @@ Print Assumptions C02_panic_sites.
    Info("m", "k", 1, "dangling") is written once to 1 and once to 2 with the same bytes;
    Debug(...) is not admitted: nothing; Print(" \n") is one LF to each; Println(42) panics
    today and is delivered after the repair *)
+(* TIE TO THE SOURCE: ONE DELIVERY PER RECORD.  The statements of Entry.printImpl after the blank-line
+   rule, translated from the source on every run (Gen/Layout.v): whatever the part printers do to the
+   context, whenever the function returns it has appended exactly one delivery to what was delivered
+   before - printOut at the level of the context of the bytes the context holds after End(true) (the
+   final line feed is End's argument) - and nothing else. *)
+Theorem C02_gen_one_printout : forall (R E D : Type)
+  (f_begin f_timestamp f_name f_severity f_msg f_first f_pc f_rest : LayoutRef.pcs R -> LayoutRef.pcs R)
+  (f_attrs : LayoutRef.pcs R -> E * LayoutRef.pcs R) (f_errdump : LayoutRef.pcs R -> E -> LayoutRef.pcs R)
+  (f_end : LayoutRef.pcs R -> bool -> LayoutRef.pcs R) (f_bytes : LayoutRef.pcs R -> bytes) (d_printout : Z -> bytes -> D)
+  m flags pc tr tr' pc',
+  @Layout.print_impl R E D f_begin f_timestamp f_name f_severity f_msg f_first f_pc f_rest f_attrs f_errdump f_end f_bytes d_printout m flags pc tr
+  = Some (tr', pc') ->
+  tr' = tr ++ [d_printout (LayoutRef.pc_lvl pc') (f_bytes pc')] /\ exists q, pc' = f_end q true.
+Proof.
+  intros R E D fb ft fn fs fm ff fp fr fa fe fend fby dp m flags pc tr tr' pc' H.
+  rewrite GenLayoutP.gen_print_impl in H. exact (GenLayoutP.print_impl_one_delivery _ _ _ _ _ _ _ _ _ _ _ _ _ _ _ _ _ _ _ _ H).
+Qed.
+Print Assumptions C02_gen_one_printout.
+
 Definition ex_cfg : xcfg :=
   {| x_l := {| l_writers := Some {| dw_normal := [Wrapped 1; Wrapped 2]; dw_error := [Wrapped 3]; dw_leveled := [] |};
                l_errdev := [0; 1; 2]; l_as := []; l_dbg := false; l_level := lv_info; l_intesting := false; l_flags := 0 |};
